@@ -654,6 +654,9 @@ class World(object):
             if g is not None:
                 g.tainted = True
                 g.snap = snap(g.kind, g.value)
+        # the caller changed these documents: earlier results on them are no longer the reference
+        for key in [k for k in self.first_result if any(i in group for i in k[1])]:
+            del self.first_result[key]
         self.event("scribble", s.id, wipe)
         # everything else must be unaffected (P3: no shared mutable state)
         self._cur_inputs = set()
@@ -711,6 +714,23 @@ class World(object):
         self.event("observe", what, tuple(op["in"]))
         self.check_unchanged(op["in"], "observe-" + what)
         return None
+
+    def op_from_json_data(self, op, rng):
+        if op.get("malformed"):
+            arg = self.slots[op["in"][0]]
+            if arg.kind != "doc":
+                op["skipped"] = True
+                return None
+            was = arg.tainted
+            arg.tainted = False  # let the generic path run; the slot stays marked below
+            try:
+                r = self.op_api(op, rng)
+            finally:
+                arg.tainted = was
+            if r is not None:
+                r.tainted = True
+            return r
+        return self.op_api(op, rng)
 
     def _call_spec(self, spec):
         name = spec["op"]
